@@ -308,6 +308,7 @@ func (m *Model) first(p *Pred, input string) {
 	m.Calls["_first"]++
 	p.Events = append(p.Events, Ev{Kind: "call", Sym: "_first", Lang: m.Lang, Input: input, LangUnknown: m.LangUnknown})
 	m.Flags[fLANG] = false
+	m.Flags[fLOADFAIL] = false
 	m.Flags[fINMATCH] = false
 	m.Flags[fWAIT] = true
 	m.Flags[fDIRTY] = false
@@ -346,6 +347,7 @@ func (m *Model) Request(input string) *Pred {
 			m.Pending = nil
 			break
 		}
+		m.Flags[fLOADFAIL] = false // documented lifetime: until the next instruction
 		if m.Flags[fLANG] {
 			m.Flags[fLANG] = false
 			if m.Lang != "" {
